@@ -52,21 +52,33 @@ func ruleC13(w *World, r *Report) {
 		return ok && truth && v == okV
 	}), "R13.1", hn, "no report for an unknown session", w.Pos(sendI.Pos()), "send only on the found edge", "a Session Report Request can be sent although the F-SEID is not in the store")
 
-	// --- the downlink PDR
+	// --- the downlink PDR: the value named in the report, and the FAR id the FAR loop compares with
 	var pdrPhi, farPhi *ssa.Phi
 	allInstrs(h, func(i ssa.Instruction) {
-		if phi, ok := i.(*ssa.Phi); ok {
-			switch phi.Comment {
-			case "pdrID":
-				pdrPhi = phi
-			case "farID":
-				farPhi = phi
+		switch x := i.(type) {
+		case *ssa.Call:
+			if strings.HasSuffix(calleeName(x), "ie.NewPDRID") && len(x.Call.Args) == 1 {
+				v := x.Call.Args[0]
+				if cv, ok := v.(*ssa.Convert); ok {
+					v = cv.X
+				}
+				if phi, ok := v.(*ssa.Phi); ok {
+					pdrPhi = phi
+				}
+			}
+		case *ssa.BinOp:
+			if x.Op != token.EQL {
+				return
+			}
+			for _, pair := range [][2]ssa.Value{{x.X, x.Y}, {x.Y, x.X}} {
+				if strings.HasSuffix(symOf(pair[0]).String(), "fars[].farID") {
+					if phi, ok := pair[1].(*ssa.Phi); ok {
+						farPhi = phi
+					}
+				}
 			}
 		}
 	})
-	if pdrPhi == nil || farPhi == nil {
-		brokenf(P, "R13.1", "pdrID/farID merge not found in handleDigestReport")
-	}
 	checkPick := func(phi *ssa.Phi, field string) ssa.Value {
 		var load ssa.Value
 		for k, e := range phi.Edges {
